@@ -91,6 +91,25 @@ def sa(o, name, v):
 
 def si(o, i, v):
     t = TR
+    if t is not None and id(o) in t.shared and _indices(o, i) is not None:
+        # slice assignment: a write of every element covered (and of the extent)
+        site = _site()
+        try:
+            vals = list(v)
+        except Exception:
+            vals = []
+        for n, k in enumerate(_indices(o, i)):
+            loc = (id(o), "[%r]" % k)
+            if loc not in t.first_old:
+                t.first_old[loc] = ("item", o, k, o[k], True)
+            t.log("W", loc, vals[n] if n < len(vals) else object(), site)
+        if len(vals) != len(_indices(o, i)):
+            loc = (id(o), "*")
+            if loc not in t.first_old:
+                t.first_old[loc] = ("whole", o, None, type(o)(o), True)
+            t.log("W", loc, object(), site)
+        o[i] = v
+        return
     if t is not None and id(o) in t.shared:
         try:
             key = repr(i)
@@ -109,10 +128,42 @@ def si(o, i, v):
     o[i] = v
 
 
+def _indices(o, i):
+    """the element indices a slice of a shared sequence covers (None: not a sequence slice)"""
+    if isinstance(i, slice) and isinstance(o, (list, bytearray)):
+        try:
+            return list(range(*i.indices(len(o))))[:256]
+        except Exception:
+            return None
+    return None
+
+
+def _read_all(t, o, site):
+    """a read of the whole container is a read of every entry it holds now (and of its extent, '*')"""
+    t.log("R", (id(o), "*"), object(), site)
+    try:
+        if isinstance(o, (list, bytearray)):
+            for k in range(min(len(o), 256)):
+                t.log("R", (id(o), "[%r]" % k), o[k], site)
+        elif isinstance(o, dict):
+            for n, (k, v) in enumerate(list(o.items())):
+                if n >= 256:
+                    break
+                t.log("R", (id(o), "[%s]" % repr(k)), v, site)
+    except Exception:
+        pass
+
+
 def read_item(o, i, v):
     """called from rt.getitem for subscript loads"""
     t = TR
     if t is not None and id(o) in t.shared:
+        idx = _indices(o, i)
+        if idx is not None:
+            site = _site()
+            for k in idx:
+                t.log("R", (id(o), "[%r]" % k), o[k], site)
+            return
         try:
             key = repr(i)
         except Exception:
@@ -133,7 +184,21 @@ def method_call(f, args=()):
     if s is not None and id(s) in t.shared:
         n = getattr(f, "__name__", "")
         if n in _MUTATORS:
-            t.log("W", (id(s), "*"), object(), _site())
+            loc = (id(s), "*")
+            site = _site()
+            if loc not in t.first_old and isinstance(s, (list, bytearray, dict, set)):
+                try:
+                    t.first_old[loc] = ("whole", s, None, type(s)(s), True)
+                except Exception:
+                    pass
+            t.log("W", loc, object(), site)
+            # ... and, conservatively, of every entry the container holds now (readers of single entries conflict)
+            try:
+                keys = range(min(len(s), 256)) if isinstance(s, (list, bytearray)) else (list(s.keys())[:256] if isinstance(s, dict) else [])
+                for k in keys:
+                    t.log("W", (id(s), "[%s]" % repr(k)), object(), site)
+            except Exception:
+                pass
         elif n in ("get", "__getitem__", "__contains__") and args:
             # a keyed read: the location is the entry, the value what is there now
             try:
@@ -143,21 +208,28 @@ def method_call(f, args=()):
                 key, cur = "?", None
             t.log("R", (id(s), "[%s]" % key), cur, _site())
         elif n in _READERS:
-            t.log("R", (id(s), "*"), object(), _site())
+            _read_all(t, s, _site())
 
 
 def it(o):
     """iteration over / unpacking of a shared container reads the whole container"""
     t = TR
     if t is not None and id(o) in t.shared:
-        t.log("R", (id(o), "*"), object(), _site())
+        _read_all(t, o, _site())
     return o
 
 
 def restore(tr):
     """undo every traced write (back to the state before the first traced run)"""
-    for loc, (kind, o, k, old, existed) in tr.first_old.items():
+    for loc, (kind, o, k, old, existed) in reversed(list(tr.first_old.items())):   # an undo log: newest first
         try:
+            if kind == "whole":
+                if isinstance(o, (list, bytearray)):
+                    o[:] = old
+                elif isinstance(o, (dict, set)):
+                    o.clear()
+                    o.update(old)
+                continue
             if kind == "attr":
                 if existed:
                     setattr(o, k, old)
